@@ -27,6 +27,7 @@ def run_kani(filt, timeout=3000, jobs=16):
     if not os.path.exists(lock):
         shutil.copy(os.path.join(H.REPO, 'Cargo.lock'), lock)
     t0 = time.time()
+    jobs = min(jobs, int(os.environ.get('SEIR_JOBS', '16')))
     cmd = ['cargo', 'kani', '-Z', 'stubbing', '-j', str(jobs), '--output-format', 'terse', '--harness', filt]
     try:
         r = subprocess.run(cmd, cwd=KDIR, env=kenv(), stdout=subprocess.PIPE, stderr=subprocess.STDOUT, text=True, timeout=timeout)
